@@ -21,6 +21,7 @@
    anything.  Definitions only. *)
 From Coq Require Import ZArith List Bool SpecFloat.
 Require Import NS.theories.F64 NS.theories.StrLib NS.theories.Lang.
+Require NS.theories.NumParse NS.theories.CaseMap.
 Import ListNotations.
 Open Scope Z_scope.
 
@@ -329,11 +330,11 @@ Fixpoint seval (n : nat) (e : expr) (c : chain) (h : heap) {struct n} : SM (valu
                 | _ => sstuck
                 end
               else if bytes_eqb f n_to_uppercase then
-                if is_ascii str then sret (VStr (ascii_upper str), h1) else ([], SUnsupp)
+                sret (VStr (CaseMap.to_upper str), h1)
               else if bytes_eqb f n_to_lowercase then
-                if is_ascii str then sret (VStr (ascii_lower str), h1) else ([], SUnsupp)
+                sret (VStr (CaseMap.to_lower str), h1)
               else if bytes_eqb f n_trim then sret (VStr (trim str), h1)
-              else if bytes_eqb f n_to_number then ([], SUnsupp)
+              else if bytes_eqb f n_to_number then sret (VNum (NumParse.to_number str), h1)
               else if bytes_eqb f n_find then
                 match args with
                 | a0 :: _ =>
